@@ -137,6 +137,30 @@ func buildFile(fc fileCase) (f *ach.File, panicked any) {
 		r := rng.New(fc.Seed ^ 0x5bd1e995)
 		mutateFields(r, f, r.Range(1, 2))
 		return f, nil
+	case "gendates": // a generator file whose date / time fields are RFC 3339 timestamps, as an API user may set them
+		f := genValidFile(fc)
+		r := rng.New(fc.Seed ^ 0x2545f491)
+		stamp := func() string {
+			return fmt.Sprintf("20%02d-%02d-%02dT%02d:%02d:00Z", r.Range(10, 40), r.Range(1, 12), r.Range(1, 28), r.Range(0, 23), r.Range(0, 59))
+		}
+		f.Header.FileCreationDate = stamp()
+		if r.Bool() {
+			f.Header.FileCreationTime = stamp()
+		}
+		for _, b := range f.Batches {
+			if h := b.GetHeader(); h != nil && r.Chance(1, 3) {
+				h.EffectiveEntryDate = stamp()
+				if r.Bool() {
+					h.CompanyDescriptiveDate = stamp()
+				}
+			}
+		}
+		for i := range f.IATBatches {
+			if h := f.IATBatches[i].Header; h != nil && r.Chance(1, 3) {
+				h.EffectiveEntryDate = stamp()
+			}
+		}
+		return f, nil
 	case "needsopts": // gen.NeedsOpts: valid only under the options stored on file / batches / records
 		r := rng.New(fc.Seed)
 		vs := gen.OptVariants()
@@ -560,7 +584,7 @@ func kindClass(kind string) string {
 	switch kind {
 	case "reader", "gentext":
 		return "reader"
-	case "api", "api-adv", "api-padded", "gen", "genmut", "newbatch":
+	case "api", "api-adv", "api-padded", "gen", "genmut", "gendates", "newbatch":
 		return "api"
 	}
 	return kind
